@@ -1,25 +1,47 @@
 #!/bin/bash
 # usage: check_benign.sh [pattern] : applies each behaviour-preserving refactoring in /verif/benign/*.diff (written by
-# independent sub-agents, each verified against the existing suite) to a scratch worktree of /repo HEAD and runs every
-# rule; a benign patch must produce NO new violated obligation and no CHECK-BROKEN. Prints one line per patch.
+# independent sub-agents, each verified against the existing suite) to a scratch worktree of the newest /repo commit it
+# applies to (HEAD first, then the commits the batches were written against) and runs every rule; a benign patch must
+# produce NO new violated obligation (w.r.t. that commit) and no CHECK-BROKEN. Prints one line per patch.
 set -u
 export GOFLAGS=-mod=mod GOPROXY=off GOSUMDB=off GOTOOLCHAIN=local
 mkdir -p /tmp/scratch
 B=/tmp/scratch/benign_base.$$
-git -C /repo worktree add -q --detach $B HEAD || exit 2
-/verif/bin/mosslint -dump -json -repo $B 2>/dev/null | grep '"verdict":"violated"' | sed 's/.*"key":"\([^"]*\)".*/\1/' | sort > /tmp/scratch/bb.$$
 bad=0
+declare -A basev
 for P in /verif/benign/*${1:-}*.diff; do
   n=$(basename $P .diff)
-  git -C $B checkout -q -- . ; git -C $B clean -fdq
-  if ! ( cd $B && git apply "$P" 2>/dev/null ); then echo "$n: does not apply to HEAD (skipped)"; continue; fi
-  ( cd $B && go build ./... ) >/dev/null 2>&1 || { echo "$n: does not build"; continue; }
+  used=""
+  for C in HEAD 15101ea d2f65d1 d66a386 2e99453; do
+    rm -rf $B; git -C /repo worktree prune; git -C /repo worktree add -q --detach $B $C 2>/dev/null || continue
+    if ( cd $B && git apply "$P" 2>/dev/null ); then used=$C; break; fi
+    git -C /repo worktree remove --force $B
+  done
+  if [ -z "$used" ]; then echo "$n: applies to no known commit (skipped)"; continue; fi
+  key=$(git -C /repo rev-parse --short $used)
+  if [ -z "${basev[$key]:-}" ]; then
+    ( cd $B && git checkout -q -- . && git clean -fdq )
+    /verif/bin/mosslint -dump -json -repo $B 2>/dev/null | grep '"verdict":"violated"' | sed 's/.*"key":"\([^"]*\)".*/\1/' | sort > /tmp/scratch/bb.$key.$$
+    basev[$key]=1
+    ( cd $B && git apply "$P" )
+  fi
+  ( cd $B && go build ./... ) >/dev/null 2>&1 || { echo "$n: does not build"; git -C /repo worktree remove --force $B; continue; }
   /verif/bin/mosslint -dump -json -repo $B > /tmp/scratch/bo.$$ 2>&1
   grep '"verdict":"violated"' /tmp/scratch/bo.$$ | sed 's/.*"key":"\([^"]*\)".*/\1/' | sort > /tmp/scratch/bm.$$
-  new=$(comm -13 /tmp/scratch/bb.$$ /tmp/scratch/bm.$$ | tr '\n' ';')
+  # a violation the base already had (a defect repaired in a later commit) that the refactoring merely moved into another
+  # function is not new: drop new keys whose rule|construct equals that of a base violation that disappeared
+  new=$(python3 - /tmp/scratch/bb.$key.$$ /tmp/scratch/bm.$$ <<'PY'
+import sys
+b=set(open(sys.argv[1]).read().split('\n'))-{''}; m=set(open(sys.argv[2]).read().split('\n'))-{''}
+gone={(k.split('|')[0],k.split('|')[-1].split('#')[0]) for k in b-m}
+out=[k for k in sorted(m-b) if (k.split('|')[0],k.split('|')[-1].split('#')[0]) not in gone]
+print(';'.join(out)+(';' if out else ''),end='')
+PY
+)
   brk=$(grep -c CHECK-BROKEN /tmp/scratch/bo.$$)
-  if [ -n "$new" ] || [ "$brk" != 0 ]; then echo "$n: FALSE ALARM new=[$new] broken=$brk"; bad=1; else echo "$n: silent"; fi
+  at=""; [ "$used" != HEAD ] && at=" (on $key)"
+  if [ -n "$new" ] || [ "$brk" != 0 ]; then echo "$n: FALSE ALARM$at new=[$new] broken=$brk"; bad=1; else echo "$n: silent$at"; fi
+  git -C /repo worktree remove --force $B
 done
-git -C /repo worktree remove --force $B
-rm -f /tmp/scratch/bb.$$ /tmp/scratch/bm.$$ /tmp/scratch/bo.$$
+rm -f /tmp/scratch/bb.*.$$ /tmp/scratch/bm.$$ /tmp/scratch/bo.$$
 exit $bad
